@@ -20,12 +20,13 @@ func (m *vCancelDev) Get(addr uint16) uint8 {
 	first := m.pending == 0
 	k := m.fetches
 	if first && k < m.bound {
-		// once the cancellation is published no further instruction may start
-		// (a context cancelled before the call may lose the race for the first one)
+		// "within a bounded delay": once the cancellation is published at most
+		// vPromptSteps further instructions start (a Run that polls the flag every
+		// few iterations is still prompt; one that never looks is not)
 		if m.at < 0 {
-			vAssert("no-step-after-cancel", k <= 0)
+			vAssert("no-step-long-after-cancel", k <= vPromptSteps)
 		} else {
-			vAssert("no-step-after-cancel", k <= m.at)
+			vAssert("no-step-long-after-cancel", k <= m.at+vPromptSteps)
 		}
 	}
 	v := m.vScript.Get(addr)
@@ -35,6 +36,10 @@ func (m *vCancelDev) Get(addr uint16) uint8 {
 	}
 	return v
 }
+
+// the delay the checks accept between the publication of a cancellation and
+// Run's return, in started instructions (the property says "bounded", no number)
+const vPromptSteps = 64
 
 // at: -1 = cancelled before the call; 0..k-1 = cancelled during instruction `at`; k = max Steps
 // bp: 0 = BreakPoints nil, 1 = arbitrary set with <= 2 members, 2 = nil but the
@@ -71,8 +76,8 @@ func VC13Script(at, k, bp int) {
 		vAssert("breakpoint-legitimately", hit)
 	} else {
 		vAssert("returns-ctx-error", vIsErrOf(err, ctx))
-		// promptness: at most the instruction in flight completes
-		vAssert("prompt", n <= at+1)
+		// promptness: see vPromptSteps
+		vAssert("prompt", n <= at+1+vPromptSteps)
 	}
 	// whole number of Steps: the twin after exactly n Steps
 	c2.HALT = false
@@ -90,9 +95,9 @@ func VC13Script(at, k, bp int) {
 //
 // "for every program (tight jump loops, block-instruction loops, I/O loops)":
 // a program that never ends by itself is run, the context is cancelled at the
-// at-th bus access, and Run must come back with the context's error after at
-// most the accesses of the instruction in flight (promptness counted in bus
-// accesses: no instruction makes more than 8), at a Step boundary.
+// at-th bus access, and Run must come back with the context's error within a
+// bounded delay - counted in bus accesses: at most 8*(vPromptSteps+1), no
+// instruction making more than 8 - at a Step boundary.
 
 type vLoopDev struct {
 	bus       *vBus
@@ -106,8 +111,8 @@ type vLoopDev struct {
 func (d *vLoopDev) tick() {
 	if d.cancelled {
 		d.after++
-		vAssert("prompt-accesses", d.after <= 8)
-		if d.after > 12 {
+		vAssert("prompt-accesses", d.after <= 8*(vPromptSteps+1))
+		if d.after > 8*(vPromptSteps+1)+4 {
 			vStop("still running long after the cancellation")
 		}
 	}
@@ -126,12 +131,14 @@ func (d *vLoopDev) Out(a uint8, v uint8)  { d.tick(); d.bus.Out(a, v) }
 // kind: 0 JR -2 | 1 JP self | 2 DJNZ -2 | 3 LDIR | 4 LDDR | 5 CPIR (no match) |
 // 6 OTIR | 7 INIR | 8 IN A,(n); JR -4 | 9 OUT (n),A; JP back | 10 memory full of DD |
 // 11 memory full of FD | 12 DD FD DD FD ... | 13 NOPs
-func VC13Loop(kind, at int) {
+// mode: 0 BreakPoints nil, cancellable context | 1 BreakPoints an arbitrary set
+// the program never reaches | 2 a context with a (far) deadline, cancelled early
+func VC13Loop(kind, at, mode int) {
 	var s States
 	vHavoc(&s, "s")
 	bus := vNewBus("bus")
 	pc := s.PC
-	span := uint16(at + 20) // bytes/elements the run can reach before and after the cancellation
+	span := uint16(at + vPromptSteps + 20) // bytes/elements the run can reach before and after the cancellation
 	notCode := func(a uint16) bool { return a-pc >= 4 } // a is outside pc..pc+3
 	switch kind {
 	case 0:
@@ -142,7 +149,7 @@ func VC13Loop(kind, at int) {
 		bus.Poke(pc+2, uint8(pc>>8))
 	case 2:
 		vPut(bus, pc, 0x10, 0xfe)
-		vAssume(s.BC.Hi > uint8(at+14))
+		vAssume(s.BC.Hi > uint8(at+vPromptSteps+14))
 	case 3, 4:
 		vPut(bus, pc, 0xed, 0xb0+(kind-3)*8)
 		vAssume(s.BC.U16() > span)
@@ -161,10 +168,10 @@ func VC13Loop(kind, at int) {
 		}
 	case 6:
 		vPut(bus, pc, 0xed, 0xb3)
-		vAssume(s.BC.Hi > uint8(at+14))
+		vAssume(s.BC.Hi > uint8(at+vPromptSteps+14))
 	case 7:
 		vPut(bus, pc, 0xed, 0xb2)
-		vAssume(s.BC.Hi > uint8(at+14))
+		vAssume(s.BC.Hi > uint8(at+vPromptSteps+14))
 		for i := uint16(0); i < span; i++ {
 			vAssume(notCode(s.HL.U16() + i))
 		}
@@ -188,15 +195,28 @@ func VC13Loop(kind, at int) {
 		}
 	}
 	twinBus := bus.Fork("twin")
-	ctx, cancel := context.WithCancel(context.Background())
+	var ctx context.Context
+	var cancel context.CancelFunc
+	if mode == 2 {
+		ctx, cancel = context.WithTimeout(context.Background(), time.Hour)
+	} else {
+		ctx, cancel = context.WithCancel(context.Background())
+	}
 	dev := &vLoopDev{bus: bus, at: at, cancel: cancel}
 	c1 := &CPU{States: s, Memory: dev, IO: dev}
 	c2 := &CPU{States: s, Memory: twinBus, IO: twinBus}
+	if mode == 1 {
+		// breakpoints somewhere the program does not go (all kinds stay within 2*span bytes of pc)
+		k1, k2 := vU16("bpk1"), vU16("bpk2")
+		vAssume(vAnd(k1-pc > 2*span, k2-pc > 2*span))
+		c1.BreakPoints = map[uint16]struct{}{k1: {}, k2: {}}
+		c2.BreakPoints = map[uint16]struct{}{k1: {}, k2: {}}
+	}
 	err := c1.Run(ctx)
 	vAssert("returns-ctx-error", vIsErrOf(err, ctx))
 	vAssert("cancelled-before-return", dev.cancelled)
 	// a whole number of Steps: the twin is stepped until it has made as many accesses
-	for i := 0; i < at+12 && twinBus.Len() < bus.Len(); i++ {
+	for i := 0; i < at+vPromptSteps+12 && twinBus.Len() < bus.Len(); i++ {
 		c2.Step()
 	}
 	vAssert("boundary-accesses", twinBus.Len() == bus.Len())
